@@ -45,10 +45,10 @@ func cacheWrappers(c *core.Ctx, pkg *packages.Package) map[string]string {
 }
 
 func runC19(c *core.Ctx) {
-	c.Rule("R1", "wrappers forward each method only to the same-named inner method", 18)
+	c.Rule("R1", "wrappers forward each method only to the same-named inner method", 30)
 	c.Rule("R2", "uniform key/value transforms (versioned keys with an injective prefix map, fresh snappy encodings, decoded-only results)", 14)
-	c.Rule("R3", "LRU layer: lock, expiry check, write-through order, Add-on-success, default TTL back-fill, delete order", 8)
-	c.Rule("R5", "wrappers never short-circuit a mutation: the inner same-named call is on every path", 10)
+	c.Rule("R3", "LRU layer: lock, expiry check, write-through order, Add-on-success, default TTL back-fill, delete order", 10)
+	c.Rule("R5", "wrappers never short-circuit a mutation: the inner same-named call is on every path", 18)
 	c.Rule("R4", "memcached placement: natural-sorted resolved list, jump hash under lock, pure hash", 4)
 	pkg := c.Prog.Pkg("cache")
 	if pkg == nil {
